@@ -91,7 +91,7 @@ func BuildSubject(scratch string, race bool) (string, error) {
 	env := goEnv()
 	if os.Getenv("VERIF_COVER") != "" && !race {
 		// diagnostic mode (tools/coverage.sh): which statements of the library do the workloads execute at all?
-		args = append(args, "-cover", "-coverpkg=github.com/scipipe/scipipe/...")
+		args = append(args, "-cover", "-coverpkg=verif/subject,github.com/scipipe/scipipe,github.com/scipipe/scipipe/components")
 	}
 	if race {
 		out += "-race"
